@@ -58,6 +58,20 @@ var alphaFlush = []hx.Op{
 	{K: "rkset", Key: "a", End: "c", Suf: "@1"},
 }
 
+// C22: histories made of version edits (flush, compaction, ingest, excise) between synced writes
+var alphaManifest = []hx.Op{
+	{K: "set", Key: "a", Sync: true},
+	{K: "flush"},
+	{K: "compact"},
+	{K: "ingest", Sub: sub(hx.Op{K: "set", Key: "b"})},
+	{K: "set", Key: "b", Sync: true},
+	{K: "excise", Key: "a", End: "b"},
+	{K: "del", Key: "a", Sync: true},
+	{K: "ingest", Sub: sub(hx.Op{K: "set", Key: "a"})},
+	{K: "reopen"},
+	{K: "batch", Sync: true, Sub: sub(hx.Op{K: "set", Key: "a"}, hx.Op{K: "del", Key: "b"})},
+}
+
 var configs = map[string]hx.Config{
 	"base":         {Name: "base"},
 	"tinymem":      {Name: "tinymem", MemTableSize: 16 << 10},
@@ -244,6 +258,14 @@ func judge(prop string, o *crashx.Oracle, state string, pt crashx.Point) *verdic
 			return &verdict{class: "durable-write-lost", prop: prop,
 				desc: fmt.Sprintf("recovered {%s} at %s is not the model of any subsequence of ops 1..%d that contains every acknowledged durable op", state, pt, pt.Hi)}
 		}
+	case "C22":
+		// every write of these histories is synced, so the prefix oracle applies without exception:
+		// an installed version edit (returned flush/ingest/excise) is never lost or torn
+		if _, ok := o.PrefixOK(state, pt); ok {
+			return nil
+		}
+		return &verdict{class: "version-edit-lost-or-torn", prop: prop,
+			desc: fmt.Sprintf("recovered {%s} at %s is not the model state after any prefix p with max(D)<=p<=hi (prefix states: %v)", state, pt, prefixes(o, pt.Hi))}
 	case "C11":
 		if _, ok := o.PrefixOK(state, pt); ok {
 			return nil
@@ -359,6 +381,11 @@ type plan struct {
 
 func plansFor(prop string, thorough bool) []plan {
 	switch prop {
+	case "C22":
+		if !thorough {
+			return []plan{{"tinymanifest", alphaManifest, 3, false}, {"base", alphaManifest, 3, false}, {"tinymanifest", alphaManifest[:7], 2, true}}
+		}
+		return []plan{{"tinymanifest", alphaManifest, 4, false}, {"base", alphaManifest, 4, false}, {"valsep", alphaManifest, 3, false}, {"tinymanifest", alphaManifest[:8], 3, true}, {"fmv-min", alphaManifest, 3, false}}
 	case "C12":
 		if !thorough {
 			return []plan{{"base", alphaFlush, 3, false}, {"nowal", alphaFlush, 3, false}, {"tinymem", alphaFlush, 2, false}, {"valsep", alphaFlush, 2, false}}
